@@ -533,8 +533,10 @@ impl<'a> Parser<'a> {
     }
 
     fn parse_primary(&mut self) -> Result<ExprAST<'a>> {
+        // a postfix operator binds tighter than a prefix one: it belongs to the operand, never to a prefix expression
+        let is_prefix_expr = self.tokenizer.cur_token.is_op_token();
         let lhs = self.parse_token()?;
-        if self.tokenizer.cur_token.is_postfix_op_token() {
+        if !is_prefix_expr && self.tokenizer.cur_token.is_postfix_op_token() {
             let op = self.tokenizer.cur_token.string();
             self.next()?;
             return Ok(ExprAST::Postfix(Box::new(lhs), op.to_string()));
